@@ -176,7 +176,7 @@ def _parse_scen(what, N, L, fixed, chunk, t_end, tag, sites):
         out['ok'] += 1
         obj = rv.f[0]
         if len(out['samples']) < 1:
-            out['samples'].append({'accepted_input_prefix': inp(ex.model())[:24]})
+            out['samples'].append({'accepted_input_prefix': inp(ex.model())[:24], 'accepted_input': inp(ex.model())})
 
         def on_tb(ex2, st2, rv2):
             by = list(rv2.e)
@@ -338,7 +338,7 @@ def _roundtrip_scen(what, N, chunk, t_end, tag, window, sites):
                     out['bad'].append({'kind': 'from_bytes(to_bytes(x)) differs from x (field group %d)' % c0, 'model': mi(m)})
                     return
             if len(out['samples']) < 1:
-                out['samples'].append({'object_fields': {k: len(v) for k, v in fields.items()}, 'encoded_len': len(by)})
+                out['samples'].append({'object_fields': {k: len(v) for k, v in fields.items()}, 'encoded_len': len(by), 'model': ex.model_inputs(ex.model())})
         nested(ex, what + '::from_bytes', [temp_ref(Seq('arr', by), (0, len(by)))], {'N': N}, on_fb)
     ex.on_return = on_tb
     st = ex.start(P.by_key[what + '::to_bytes'], [temp_ref(obj)], env={'N': N})
